@@ -293,6 +293,10 @@ bool PedersenCommitmentScheme::CheckGroup
 			(mpz_sizeinbase(q, 2L) < G_size))
 				throw false;
 		
+		// The order of the subgroup is a positive number.
+		if (mpz_cmp_ui(q, 0L) <= 0)
+			throw false;
+		
 		// Check whether $p$ has the correct form, i.e. $p = kq + 1$.
 		mpz_mul(foo, q, k);
 		mpz_add_ui(foo, foo, 1L);
